@@ -730,6 +730,8 @@ def rule_escape_units(run, prog):
            (f"pop(use_escape=True) on {bad[0]!r} returns {bad[1]!r} but moves the cursor to offset {bad[2]} ({bad[0][:bad[2]]!r}): "
             f"{bad[2] - len(bad[1])} character(s) are in no token") if bad else "", pop.node, evaluations=n)
     rule_tokenizer_reaches(run, prog)
+    from .c10_roundtrip import rule_round_trip
+    rule_round_trip(run, prog)
 
 
 def rule_tokenizer_reaches(run, prog):
